@@ -9,6 +9,7 @@ pub mod c19;
 pub mod c05;
 pub mod c06;
 pub mod c07;
+pub mod c08;
 pub mod c10;
 
 /// run the real code for one request; None = unknown function
@@ -26,6 +27,7 @@ pub fn generate(prop: &str, tier: &str, rng: &mut Rng) -> (Vec<String>, bool) {
         "C05" => c05::generate(tier, rng),
         "C06" => c06::generate(tier, rng),
         "C07" => c07::generate(tier, rng),
+        "C08" => c08::generate(tier, rng),
         "C10" => c10::generate(tier, rng),
         _ => panic!("no generator for {prop}"),
     }
@@ -40,6 +42,7 @@ pub fn rule(prop: &str, tier: &str) -> String {
         "C05" => c05::rule(tier),
         "C06" => c06::rule(tier),
         "C07" => c07::rule(tier),
+        "C08" => c08::rule(tier),
         "C10" => c10::rule(tier),
         _ => String::new(),
     }
@@ -82,6 +85,7 @@ pub fn valid_case(prop: &str, r: &Req) -> bool {
         "C05" => c05::valid_case(r),
         "C06" => c06::valid_case(r),
         "C07" => c07::valid_case(r),
+        "C08" => c08::valid_case(r),
         "C10" => c10::valid_case(r),
         _ => true,
     }
@@ -131,4 +135,9 @@ pub fn known_finding(prop: &str, r: &Req, imp: &str, spec: &str) -> Option<Strin
         "C14" => c14::known_finding(r, imp, spec),
         _ => None,
     }
+}
+
+/// additional C08 request streams contributed by merged properties (aggregations, mapping)
+pub fn c08_extra(_tier: &str, _rng: &mut Rng) -> Vec<String> {
+    vec![]
 }
